@@ -37,7 +37,7 @@ claim("C03", "interprocedural slice/map ownership analysis over go/ssa (flow-sen
       "Decides the mechanism the property names (slice/map aliasing): (R03a) no append, element store, copy destination, in-place sort, map update "
       "or delete - directly or by passing to a parameter the callee mutates - acts on a slice or map that may alias storage reachable from an "
       "existing value, anywhere in the module (570 sinks), including a slice captured by a closure that can run more than once and is extended "
-      "without being written back (partial applications sharing one argument array); (R03b) a frozen builder stored in a value-model builder is finished in place, never on a local copy (the copy leaves the builder aliasing the finished value). Covers every history at once because it is a property of each write site, not of a run. "
+      "without being written back (partial applications sharing one argument array); (R03b) a frozen builder stored in a value-model builder is finished in place, never on a local copy (the copy leaves the builder aliasing the finished value); (R03c) function values stored in expression or value objects, and the closures they call, write nothing captured from outside their own invocation (no scratch buffer or builder shared between evaluations). Covers every history at once because it is a property of each write site, not of a run. "
       "frozen's persistent maps/sets are trusted; mutation through Export() by a host program is outside.", NOTE, "DESIGN.md §3 C03")
 
 claim("C19", "flag-fixed CFG reachability (dry-run purity and validation completeness), dominance of the dry pass, type-switch fall-through, guard-dominates-use on joined paths, unused-error-result scan",
@@ -63,7 +63,7 @@ claim("C17", "actor-goroutine closure over the VTA call graph (interpreter dispa
       "current scope; (R17d) no unchecked map-miss dereference; (R17e) every evaluation on the actor - and every client callback that is handed a value - is under a recover; (R17f) no blocking send to a "
       "client-owned channel; (R17g) no goroutine spawned from the loop (serial delivery); (R17h) a recovered panic is stored into the function's named "
       "error result on every recovered path (otherwise a panicking update is acknowledged and installs nil); (R17i) the engine's mailboxes are "
-      "unbuffered (a client call returns only when the actor took the message, so calls made in sequence are served in sequence); (R17j) every request received on the gRPC update stream is answered (Send) or ends the stream before the next Recv. Ordering/fairness between concurrent clients is not decided.", NOTE, "DESIGN.md §3 C17")
+      "unbuffered (a client call returns only when the actor took the message, so calls made in sequence are served in sequence); (R17j) every request received on the gRPC update stream is answered (Send) or ends the stream before the next Recv; (R17k) no mutex an observer callback takes is held across a call that rendezvous with the engine goroutine. Ordering/fairness between concurrent clients is not decided.", NOTE, "DESIGN.md §3 C17")
 
 claim("C11", "guarded-by analysis (must-hold lockset dataflow, sync.Once Do-closure / dominance), purity of callbacks passed to concurrent frozen APIs and across goroutines, condition-variable wake-up rule",
       "Decides the synchronisation conventions on every path: (R11a) callbacks handed to frozen APIs that fan out over goroutines write no "
@@ -72,14 +72,14 @@ claim("C11", "guarded-by analysis (must-hold lockset dataflow, sync.Once Do-clos
       "read only after Do, every mutex-guarded cell is accessed only with the mutex held and written only with it held exclusively (not under RLock), every declared Mutex/Once is used, unsynchronised "
       "package-variable writes are limited to an audited start-up list; (R11c) state changes that waiters wait for are followed by a Broadcast; "
       "(R11d) observer callbacks (run on the engine goroutine) write no captured variable; (R11e) a guarded resource is not used after its lock "
-      "is released. Races inside dependencies and serial equivalence of results are not decided.", NOTE, "DESIGN.md §3 C11")
+      "is released; (R03c) function values stored in expression or value objects share no captured buffer or builder. Races inside dependencies and serial equivalence of results are not decided.", NOTE, "DESIGN.md §3 C11")
 
 claim("C18", "capability reachability over the VTA call graph with interpreter dispatch cut, registrar-combinator resolution, who-may-call and data-flow of the sandbox scope",
       "Decides the reachability clauses of the sandbox property: (S18a) from each of the 66 Go natives registered in the safe library no process-"
       "execution, network, file-content, unsafe-library or import-resolution capability is reachable (interpreter dispatch cut: evaluating an existing "
       "value mints no capability); (S18b) only host code calls StdScope; (S18c) the scope contextualEval evaluates with has `//` bound on every "
       "path and defaults to the safe library; (S18d) inside rel's evaluators no nested Eval/Bind is handed the global EmptyScope (which unbinds `//`) "
-      "on a path some caller can take; (S18e) the tuple attribute `safe` (//std.safe) is built only while SafeStdScopeTuple assembles the safe library. Four genuine routes exist today and are listed as known findings. Leaks through a dependency's "
+      "on a path some caller can take; (S18e) the tuple attribute `safe` (//std.safe) is built only while SafeStdScopeTuple assembles the safe library; (S18f) the parsed sandbox configuration never comes from package-level state. Four genuine routes exist today and are listed as known findings. Leaks through a dependency's "
       "internals are not decided; the call graph over-approximates, so the claim is level other.", NOTE, "DESIGN.md §3 C18")
 
 claim("C10", "grammar/table agreement, inhabited-type analysis of unchecked assertions, TS-SCCP definite-panic stubs, recover-boundary reachability from goroutine roots, recover-to-error store rule, dimension analysis of text positions (bytes vs characters), condition-variable wake-up rule",
@@ -89,13 +89,13 @@ claim("C10", "grammar/table agreement, inhabited-type analysis of unchecked asse
       "(R10e) every goroutine root that gRPC or `go` hands us crosses a recover before compiling/evaluating client text; (R10f) no lost wake-up on "
       "the import cache's condition variable; plus the engine/import-cache liveness rules shared with C16/C17 (R17a self-communication, R17d map-miss "
       "dereference, R17e recover on the actor and around value-taking client callbacks, R17h recovered panic stored into the named error result, R19h deferred stores keep the first error, R16d "
-      "re-entrant wait); (R10g) byte positions and character positions of text are never mixed in offset arithmetic, slicing or indexing (dimension analysis). Index-out-of-range in general, nil dereference, recursion depth and termination are not decided.", NOTE, "DESIGN.md §3 C10")
+      "re-entrant wait); (R10h) an interface field that is called without a nil test is set by every construction of its struct; (R10g) byte positions and character positions of text are never mixed in offset arithmetic, slicing or indexing (dimension analysis). Index-out-of-range in general, nil dereference, recursion depth and termination are not decided.", NOTE, "DESIGN.md §3 C10")
 
 claim("C15", "dominance of recorders over readers, flag-fixed reachability of host effects along all call paths from Compile, sibling agreement of archive-location derivations",
       "Decides structural necessary conditions of bundle = sources: (R15a) every import read is either bundle-run-only or dominated by its recorder "
       "with the error propagated; (R15d) the module component of the entries SetupBundle writes is the very value it stores in config.mainRoot; (R15f) bundleModule returns the module context on every recording path; (R15e) no location handed to a recorder depends on an HTTP response or other environment read; (R15b) no host access (network, process, host files, cwd) is reachable from Compile while isRunningBundle is true, "
       "along every call path; (R15c) every recorder derives archive locations through the same mapping (bundleConfig.mainRoot/absRootPath or "
-      "createModulePath) that the runtime re-derives; (R15g) the content of every archive entry except the generated configuration is, unchanged, the bytes read from the source (or a []byte handed in by the importer); (R16h) shared with C16. That the computed archive path equals the runtime path for every layout is string algebra "
+      "createModulePath) that the runtime re-derives; (R15g) the content of every archive entry except the generated configuration is, unchanged, the bytes read from the source (or a []byte handed in by the importer); (R15h) the archive location of a remote import derives from its URL by scheme removal and joining only, identically in the recorder and the bundle run; (R16h) shared with C16. That the computed archive path equals the runtime path for every layout is string algebra "
       "and not decided.", NOTE, "DESIGN.md §3 C15")
 
 claim("C16", "taint/dominance of the import-path sanitiser with symbolic evaluation of the rejecting predicate on a witness set, root-prefix data flow, wake-up rule, call-graph re-entrancy of the import cache",
@@ -104,7 +104,7 @@ claim("C16", "taint/dominance of the import-path sanitiser with symbolic evaluat
       "../../x); (R16b) root imports read rootPath + / + … from findRootFromModule; (R16c) no lost wake-up in the import cache; (R16d) a cyclic import "
       "re-enters getOrAdd with no owner test (genuine hang, known finding); (R16e) the module-root cache is written only on the true branch of the "
       "sentinel test of the stored root; (R16g) an import-cache key depends on every string input its add callback uses; (R16f) after the confinement check the path is only trimmed, prefixed, joined, cleaned or has text "
-      "removed - never rewritten by a step that can introduce separators; (R16h) every place that appends the script extension does so under a condition on filepath.Ext of the path only (reader, recorder and module bundler resolve one spelling to one file). Which other strings the sanitiser lets through (whitespace, absolute "
+      "removed - never rewritten by a step that can introduce separators; (R16h) every place that appends the script extension does so under a condition on filepath.Ext of the path only (reader, recorder and module bundler resolve one spelling to one file); (R16i) no Dir() under an Ext() test (a directory is not taken for a file because its name has a dot). Which other strings the sanitiser lets through (whitespace, absolute "
       "forms), symlinks and equal values across spellings are not decided.", NOTE, "DESIGN.md §3 C16")
 
 claim("C09", "error-discipline and merge-discipline checks over every Pattern.Bind call site (go/ssa def-use, dominance), data-dependence of the agreement test",
@@ -128,7 +128,7 @@ claim("C12", "table extraction and agreement (printer escape table vs reader esc
       "reader (reader table read from the escape switch, from parallel constant strings or from a map literal), and the reader handles \\\\, both quotes and \\x; (R12b) for all 18 value types, every field Equal reads is read by Format/String "
       "(Bytes.offset is not: known finding); (R12c) names are printed unquoted only when they match the grammar's IDENT (pattern equality; no unicode "
       "classification); (R13c) no unchecked float->integer conversion in the number printer; (R12d) the pattern by which Bytes.Format selects the quoted-text form accepts ASCII only (the text is written by the rune-wise "
-      "escaper); (R07b, R06f) printers emit members in a sorted order. The escape reader's index arithmetic (\\xNN off-by-one), number formatting and nesting are value-level and not decided.", NOTE, "DESIGN.md §3 C12")
+      "escaper); (R12e) the `|names|` heading of a relation is written only when every name matches the identifier pattern, and never through a quoting function; (R07b, R06f) printers emit members in a sorted order. The escape reader's index arithmetic (\\xNN off-by-one), number formatting and nesting are value-level and not decided.", NOTE, "DESIGN.md §3 C12")
 
 claim("C13", "TS-SCCP of the encoder under each (strict flag, value type) context with data-dependence of the result on the value; shape descriptors of the wire-format switch",
       "Decides two information-loss conditions of the codecs: (R13a) for no data value type with more than one inhabitant does FromArrai (strict or "
@@ -150,7 +150,7 @@ claim("C02", "construction-discipline checks over go/ssa (raw re-slices of holey
       "String/Array is built around a raw re-slice of another value's store outside a trimming constructor; (R02b) a tuple whose name set changed is "
       "returned through a canonicaliser (GenericTuple.With/Without are not: known findings); (R02c) Equal is symmetric for all 153 type pairs; (R02d) "
       "the three shape-specialising switches name all four sugar shapes; (R02e) the layout-sensitive row digest is only taken of canonicalRelation(); "
-      "(R02f) a slot builder's derived field (Array.count, String.holes) comes from a counter guarded by the slot's previous content; (R02g) an emptied representation is returned as the one empty set; "
+      "(R02f) a slot builder's derived field (Array.count, String.holes) comes from a counter guarded by the slot's previous content; (R02g) an emptied representation is returned as the one empty set; (R02h) every field an observer method reads is read by Equal too (Closure.scope is not: known finding); (R02i) no Hash takes a float's bit pattern; "
       "(R01d, R03a) shared with C01/C03. "
       "Extensionality itself and Equal within one type are not decided.", NOTE, "DESIGN.md §3 C02")
 
@@ -161,7 +161,7 @@ claim("C07", "effect analysis of printing paths (unordered sources must be order
       "asArray/asString/asBytes overwrite colliding slots in enumeration order (genuine, known findings); (R06d) every sort comparator decides "
       "through Value.Less; (R06f) the tuple name-order cache is only ever stored sorted; (R02e) equal relations hash equally whatever their column "
       "layout (otherwise set de-duplication depends on the per-process seed); (R07d) no Less method of a value type reaches a Hash call (hashes are "
-      "seeded per process); (R07f) no loop over a hash-ordered enumeration keeps only what its last element says; (R07e) member sets are not merged by feeding their elements into one set builder (index collisions, last writer wins). A full order-sensitivity classification of all "
+      "seeded per process); (R03c) closures stored in expressions keep no state between evaluations (a result must not depend on which group was evaluated before); (R07f) no loop over a hash-ordered enumeration keeps only what its last element says; (R07e) member sets are not merged by feeding their elements into one set builder (index collisions, last writer wins). A full order-sensitivity classification of all "
       "120 unordered loops, determinism of dependencies and of float reductions are not decided.", NOTE, "DESIGN.md §3 C07")
 
 for pid in []:
